@@ -322,6 +322,7 @@ def build_whole(case, store_dir=None):
                               1e-9 * (0.05 + 0.008 * x), 0.1 + 0.03 * x - 0.002 * x * x, 0.03 - 0.004 * x)))
         k += 2.5
     sensors['i0_antenna_channelised_voltage_m000h_delay'] = upd
+    delay_updates = [(cfg['sync'] + v[0] / scale, v[1], v[2], v[3], v[4]) for _, v in upd]
     syn = v4synth.make_v4(rng, T=T, F=F, n_ants=cfg['n_ants'], sync_time=cfg['sync'], first_timestamp=cfg['first'],
                           int_time=cfg['int'], center_freq=cfg['centre'], bandwidth=F * cfg['width'],
                           sub_product=cfg['product'], sub_pool_resources=cfg['resources'],
@@ -329,6 +330,7 @@ def build_whole(case, store_dir=None):
                           activity=[(-40.0, 'slew'), (1.5, 'track')], targets=[(-40.0, v4synth.TARGETS[0])],
                           labels=[(-40.0, 'track')],
                           open_kwargs={'time_offset': cfg['off']}, seed=cfg['seed'])
+    syn.delay_updates = delay_updates
     return syn
 
 
@@ -390,6 +392,15 @@ def snapshot(d, syn, with_meta):
         out['phase'] = np.asarray(d.sensor['Correlator/Inputs/m000h/applied_phase'], dtype=float)
     except KeyError:
         out['delay'] = out['phase'] = None         # no CBF attributes in this configuration
+    if out['delay'] is not None and getattr(syn, 'delay_updates', None):
+        # the documented function of the source sensor: between two updates the F-engine advances the delay (phase) of
+        # the latest update with the delay rate (phase rate) of that update; before the first update its value is held
+        ts = np.asarray(d.timestamps[:], dtype=float)
+        ut = np.array([u[0] for u in syn.delay_updates])
+        k = np.clip(np.searchsorted(ut, ts, side='right') - 1, 0, len(ut) - 1)
+        dt = np.maximum(ts - ut[k], 0.0)
+        out['delay_oracle'] = np.array([syn.delay_updates[i][1] + syn.delay_updates[i][2] * x for i, x in zip(k, dt)]) * 1e9
+        out['phase_oracle'] = np.array([syn.delay_updates[i][3] + syn.delay_updates[i][4] * x for i, x in zip(k, dt)])
     if with_meta:
         out['off'] = Fraction(float(d.time_offset))
         out['start'] = Fraction(float(d.start_time.secs))
@@ -563,6 +574,13 @@ def judge_open(ctx, case, mrep, srep, vrep, res):
         return f"sensor values with preselect {P['sensor'][:4]} differ from whole+select {W['sensor'][:4]}"
     if P['delay'] is not None:
         ctx.tag('applied-delay-sensor-compared')
+        for key in ('delay', 'phase'):
+            o = P.get(key + '_oracle')
+            if o is not None and (o.shape != P[key].shape or not np.allclose(P[key], o, rtol=1e-6, atol=1e-6)):
+                j = int(np.argmax(np.abs(P[key] - o))) if o.shape == P[key].shape else 0
+                return (f'applied_{key} of m000h at dump {j} is {P[key][j] if o.shape == P[key].shape else P[key].shape}, '
+                        f'the F-engine model of its source sensor (latest update advanced with its {key} rate) gives '
+                        f'{o[j]}')
     for key in ('delay', 'phase'):
         if (P[key] is None) != (W[key] is None):
             return f'the applied_{key} sensor exists only with / only without the preselect'
